@@ -57,6 +57,7 @@ package ptracer
 //@   arith int
 //@   assigns UseVMReadv
 //@   ensures len(result) >= 0
+//@   abstracts result == tstr(c.Pid, uint64(addr))
 
 //@ func ptracer.(*Context).SyscallNo props C02 C15
 //@   arith bv
